@@ -53,3 +53,12 @@ Theorem C14_no_panic_unguarded_refuted :
   ~ (forall open unwrap blob, is_panic (decrypt_seed open unwrap blob) = false).
 Proof. exact env_no_panic_false. Qed.
 Print Assumptions C14_no_panic_unguarded_refuted.
+
+(* ---- tie to the source: the integer literals of the functions this property's model stands for
+   (private constants, bounds, unit factors; the files are SiteMap.files_C14) are today the ones the
+   model was written against. Gen/Sites.v num_literals is regenerated from /repo on every run; a
+   changed, added or removed number in a modelled function breaks this obligation ---- *)
+Require RV.Gen.Sites RV.Model.SiteMap.
+Theorem C14_literals_reviewed : RV.Model.SiteMap.literals_ok RV.Model.SiteMap.files_C14.
+Proof. repeat constructor. Qed.
+Print Assumptions C14_literals_reviewed.
